@@ -67,6 +67,14 @@ def worker(args):
             sub.violation('%s|%s|foreign-key-failure' % (rel, sx.kinds(small)),
                           dict(model=name, fixture=fixture, history=small, error=msg),
                           'flush order rejected by the database: %s' % msg[:200])
+        elif exc in ('OptimisticCheckError', 'UnrepeatableReadError', 'AssertionError', 'KeyError', 'AttributeError', 'TypeError') \
+                and not sx.latent_conflict(fixture, hist) and all(q[0] == 'ok' for q in x.obs[:-1]):
+            # no other session exists: nothing can have changed the rows behind this session's back, so a
+            # failing optimistic check (or an internal error) can only come from the order of the writes
+            small = sx.shrink(hist, lambda h: (lambda y: y.obs[-1] == ('exc', exc) and all(q[0] == 'ok' for q in y.obs[:-1]))(env.run(h, fixture)))
+            sub.violation('%s|%s|flush-fails-with-%s' % (rel, sx.kinds(small), exc),
+                          dict(model=name, fixture=fixture, history=small, error=msg),
+                          'flush of an orderable set of writes failed: %s: %s' % (exc, msg[:200]))
         elif exc == 'UnresolvableCyclicDependency':
             tw = env.run(list(hist[:-1]) + [('view_created',)], fixture, record_sql=False)
             if tw.obs[-1][0] != 'ok':
